@@ -737,3 +737,13 @@ CALLBACK_NAMES = [
     "lazy_target_ser", "lazy_getter_d", "lazy_getter_s", "hex_to_int", "int_to_hex",
     "validated_cb", "double_cb", "camel", "prefix_aliaser",
 ]
+
+
+# --------------------------------------------------------------- generated class graphs
+import os as _os  # noqa: E402
+import sys as _sys  # noqa: E402
+
+from dst.c20 import gen as _gen  # noqa: E402
+
+GEN_SEED = int(_os.environ.get("DST_GEN_SEED", _os.environ.get("VERIF_SEED") or 0) or 0)
+GEN_INFO = _gen.build(GEN_SEED, int(_os.environ.get("DST_GEN_FAMILIES", "40")), _sys.modules[__name__])
